@@ -172,6 +172,8 @@ type System struct {
 	events []AbsEvent
 	sysId  int
 	obs    *coreObserver
+	connMu sync.RWMutex // concurrent drivers: guards Peer.reader
+	ctrMu  sync.Mutex   // concurrent drivers: guards Peer.ctr
 	// C14
 	idCtr       []uint64 // id -> message counter, in order of first appearance
 	cbMu        sync.Mutex
